@@ -310,6 +310,11 @@ func cloneExpr(expr Expression) Expression {
 			Label: expr.Label,
 			p:     expr.p,
 		}
+	case *LitMatcher:
+		return &LitMatcher{
+			posValue:   expr.posValue,
+			IgnoreCase: expr.IgnoreCase,
+		}
 	case *NotExpr:
 		return &NotExpr{
 			Expr: cloneExpr(expr.Expr),
